@@ -67,6 +67,10 @@ func TestC06(t *testing.T) {
 			if v.Opts.FieldSensitive && gogen.Uniform(rt, 4, "fs") != 0 {
 				continue
 			}
+			if v.Opts.FieldSensitive && off["variant:fieldsens"] {
+				rec.Count("excluded_by_known_finding", 1)
+				continue
+			}
 			res, npairs, ok := c06Unstable(worker, files, v, reps)
 			if !ok {
 				rec.Count("inconclusive", 1)
